@@ -273,18 +273,23 @@ reg(Check("C13", "model_checking",
 MSG_RULE = ("BFS over histories of {pub by 4 users (one with forged sender header + noecho), soft/hard delete with 6 (quick) / 11 (thorough) "
             "range lists, read/recv/kp/bogus notes with stale/valid/future ids, want/given flips of R and W, unsub/sub/leave/attach, reload} on a "
             "group topic holding 3 messages, depth 3 quick / 4 thorough; a set-semantics reference model runs along the history; after every "
-            "transition each attached user probes {get data} with 6 range/limit shapes, {get del}, {get desc}, {get sub}")
+            "transition each attached user probes {get data} with 6 range/limit shapes, {get del}, {get desc}, {get sub}. "
+            "p2p (C02, C03, C09): the same on a peer-to-peer topic. chan (C02, C03, C09): BFS to depth 3 / 5 over 25 operations on a "
+            "channel-enabled group (owner and member attached under the group name, two channel readers - one with two sessions - under the "
+            "channel name, a stranger): publishes incl. by readers, reader attach / leave / unsubscribe, notes from members and readers, "
+            "history reads, reload")
 for _cid, _what in [("C03", "publish decision = attached AND W in want&given; a rejected publish leaves store, ids, frames and pushes untouched"),
                     ("C04", "history = stored minus hard-deleted minus own soft-deleted within [since,before), newest first, limit; deletion = exact union; deletion log exact"),
                     ("C09", "0<=read<=recv<=last in store, cache, {get desc}, {get sub}; marks never decrease and move only by own pub/note; relay filters"),
                     ("C02", "fan-out to exactly the attached readers (minus noecho origin), copy fields, push recipients = R and P holders")]:
     reg(Check(_cid, "model_checking", MSG_RULE + ". Oracle: " + _what,
-              ["canonical schedule only", "one group topic, 4 users with one session each (more sessions per user and channel readers are covered by the E1 scenarios where present)"],
+              ["canonical schedule only", "group part: 4 users with one session each; channel part: 5 users, a reader with two sessions; sys topic not covered"],
               text=XS_NOTE, note="trusted: memdb store contract, instrumenter/scheduler",
               technique="explicit-state model checking over the real handlers against a reference model (BFS by replay)",
               engine="E2 xstate", claimed=True,
               parts=[Part("msg", SRV, "^TestVerif%sMsg$" % _cid, instr=True, gomaxprocs=16, deadline=(400, 3000))] +
-                    ([Part("p2p", SRV, "^TestVerif%sP2P$" % _cid, instr=True, gomaxprocs=16, deadline=(300, 2400))] if _cid in ("C03", "C09") else []) +
+                    ([Part("p2p", SRV, "^TestVerif%sP2P$" % _cid, instr=True, gomaxprocs=16, deadline=(300, 2400))] if _cid in ("C02", "C03", "C09") else []) +
+                    ([Part("chan", SRV, "^TestVerif%sChan$" % _cid, instr=True, gomaxprocs=16, deadline=(300, 2400))] if _cid in ("C02", "C03", "C09") else []) +
                     ([Part("races", SRV, "^TestVerifC03Races$", instr=True, shards=(8, 16), deadline=(300, 3000))] if _cid == "C03" else []) +
                     ([Part("ranges", TYPES, "^TestVerifC04Ranges$", shards=(16, 16))] if _cid == "C04" else [])))
 
